@@ -153,6 +153,9 @@ def run(ck):
             ck.sample({'kind': 'wave', 'nodes': len(desc.get('circuit', {}).get('nodes', [])), 'c_reuse': desc.get('c_reuse'), 'sims': desc.get('sims')})
     ck.obligation('every permutation of operations inside levels / of mock-GPU threads gives bit-identical signal memories and results',
                   not fails, 'correspondence', fails[0][1] if fails else '')
+    # the launcher model that C07_threads_once is about = the real MockCuda launcher
+    from harness import launch_corr
+    lfails = launch_corr.run(ck, rng, ck.scale(16, 120))
     ck.rule('random circuits x options; op rows permuted inside every level (LogicSim 2/4/8, WaveSim), mock GPU launcher iterating a '
             'random thread order (assign, eval, capture kernels); independent schedule checker (operands produced in earlier levels, '
             'released memory not handed out in the same level)')
@@ -162,6 +165,8 @@ def run(ck):
              'semantics below kernel-instance granularity is not modelled, and the mock launcher cannot exhibit it')
     for desc, what in fails[:5]:
         ck.fail('schedule:' + desc.get('kind', '?'), what, {'component': 'SimOps levels / level_eval / MockCuda launcher', 'input': desc, 'actual': what})
+    for key, what, rp in lfails[:3]:
+        ck.fail(key, what, dict(rp, actual=what))
 
 
 def replay(rp):
@@ -169,6 +174,9 @@ def replay(rp):
     import random
     inp = rp['input']
     rng = random.Random(1)
+    if inp.get('kind') in ('launch', 'threads'):
+        from vcheck.props import C06
+        return C06.replay(rp)
     try:
         if inp.get('kind') == 'wave' and 'circuit' in inp:
             k = wk.from_description(inp)
